@@ -645,4 +645,19 @@ def symbolic_programs(tier="quick"):
     add("compose", ["einsum", "ij,j->i", ["roll", x, -1, 0], ["bin", "add", y, y]])
     add("compose", ["bin", "add", ["roll", w, 1, 0], ["roll", w, 1, 1]])
     add("compose", ["roll", ["stack", 0, z, z], 1, 1])
+    # one axis length written in two ways (equal for every size, structurally different): every operand must still be
+    # read along the whole axis, not taken for a broadcast unit axis
+    for k, (s1, s2) in enumerate([("n+n", "2*n"), ("n+1", "1+n"), ("n+m", "m+n"), ("3*n-n", "2*n"), ("2*n", "n+n")]):
+        p1, p2 = P(f"r{k}a", (s1,)), P(f"r{k}b", (s2,))
+        q1, q2 = P(f"r{k}c", (s1, 3)), P(f"r{k}d", (s2, 3))
+        add("respelled", ["bin", "add", p1, p2])
+        add("respelled", ["bin", "mul", q1, q2])
+        add("respelled", ["bin", "sub", q1, ["bin", "mul", q2, y]])
+        add("respelled", ["where", ["cmp", "greater", p1, ["py", 0.0]], p2, ["neg", p1]])
+        add("respelled", ["mm", "maximum", q2, q1])
+        add("respelled", ["einsum", "i,i->i", p1, p2])
+        add("respelled", ["einsum", "ij,ij->j", q1, q2])
+        add("respelled", ["broadcast_to", p1, [s2]])
+        add("respelled", ["stack", 0, p1, p2])
+        add("respelled", ["concat", 1, q1, q2])
     return progs
